@@ -155,6 +155,14 @@ def _mk(rng, **force):
         d = files[tn]['data']
         for _ in range(rng.randint(1, 2)):
             d[rng.randrange(len(d))] = rng.choice(['nan', 'inf', '-inf'])
+        nt_, nsw_, ncl_ = files[tn]['shape']
+        if ncl_ >= 2 and rng.random() < 0.4:
+            # one channel of one template entirely NaN (every sample), the other channels finite: not an all-NaN template
+            t_, c_ = rng.randrange(nt_), rng.randrange(ncl_)
+            for s_ in range(nsw_):
+                d[(t_ * nsw_ + s_) * ncl_ + c_] = 'nan'
+                if d[(t_ * nsw_ + s_) * ncl_ + (c_ + 1) % ncl_] == 'nan':
+                    d[(t_ * nsw_ + s_) * ncl_ + (c_ + 1) % ncl_] = 1.0
     if o['nonmono'] and ns >= 2:
         tn = [n for n in files if n.startswith('spike_times') or n.startswith('spikes.times')][0]
         d = files[tn]['data']
@@ -210,7 +218,7 @@ def generate(tier, rng):
     ]:
         for _ in range(3):
             cases.append({'kind': 'load', 'inp': _mk(rng, **force)})
-    n_pair, n_rand = {'quick': (6, 20), 'thorough': (40, 1500), 'search': (10, 1500)}[tier]
+    n_pair, n_rand = {'quick': (6, 20), 'thorough': (32, 800), 'search': (10, 1500)}[tier]
     # every pair of axis values at least n_pair times (random completion of the other axes)
     axes = AXES if tier == 'quick' else AXES + AXES_LIGHT
     if tier == 'quick':      # the fourth route is exercised by the corpus, the light axes and the random stream
